@@ -138,8 +138,10 @@ class LowerTry(Rule):
             hs.append((' '.join(text[p + 1:pe].split()), text[h + 1:he]))
             k = he + 1
         # the handlers are lowered in *source order* (the order decides which one runs); the table pins their declarations
-        if sorted(d for d, _ in hs) != sorted(self.handlers):
-            raise ExtractionBreak('%s: handlers are %r, the lowering table expects %r' % (where, [d for d, _ in hs], self.handlers))
+        # (any handler list is lowered structurally; an exception type outside the subtype table of contracts/C19_exc.h has no
+        # EXC_ constant and fails the compile gate of the extracted unit)
+        if not hs:
+            raise ExtractionBreak('%s: try without handlers' % where)
         ret = 'return %s;' % self.ret if self.ret else 'return;'
         pre, _ = self._prop(text[:t], 'if (verif_exc) %s' % ret, where)
         body, n = self._prop(text[b + 1:be], 'if (verif_exc) goto verif_catch_1;', where)
@@ -151,6 +153,8 @@ class LowerTry(Rule):
             if catch_all:
                 raise ExtractionBreak('%s: handler after catch (...)' % where)
             htext, _ = self._prop(htext, 'if (verif_exc) %s' % ret, where)
+            # `throw;` re-raises the exception being handled
+            htext = re.sub(r'\bthrow\s*;', '{ verif_exc = verif_caught; %s }' % ret, htext)
             if d == '...':
                 cond, decl, catch_all = '1 /* handler for anything */', '', True
             else:
@@ -159,7 +163,7 @@ class LowerTry(Rule):
                     raise ExtractionBreak('%s: unsupported exception declaration %r' % (where, d))
                 cond = 'VERIF_CATCHES(verif_exc, EXC_%s)' % mo.group(1)
                 decl = (' const int %s = verif_exc; (void)%s;' % (mo.group(2), mo.group(2))) if mo.group(2) else ''
-            out += '  else if (%s) {%s verif_exc = 0;%s}\n' % (cond, decl, htext)
+            out += '  else if (%s) {%s const int verif_caught = verif_exc; (void)verif_caught; verif_exc = 0;%s}\n' % (cond, decl, htext)
         if not catch_all:
             out += '  else { %s /* no handler matches: the exception propagates */ }\n' % ret
         post, _ = self._prop(text[k:], 'if (verif_exc) %s' % ret, where)
